@@ -1138,6 +1138,23 @@ func (h *H) Crash(mode string, n int) string {
 // reaches the named step; the op then completes in the old process, which is abandoned.
 func (h *H) CrashAt(point string, op string) string {
 	h.SnapRelease()
+	release := func() {}
+	if point == "replace.inuse" {
+		// queries hold the files while they are replaced: the store moves them aside instead
+		// of removing them (released once the image is taken and the op is through, so that
+		// the abandoned process can be closed)
+		if e := h.Engine(); e != nil {
+			held := e.FileStore.Files()
+			for _, f := range held {
+				f.Ref()
+			}
+			release = func() {
+				for _, f := range held {
+					f.Unref()
+				}
+			}
+		}
+	}
 	g := h.Arm(point)
 	done := make(chan string, 1)
 	go func() { done <- h.Step(op) }()
@@ -1155,6 +1172,7 @@ func (h *H) CrashAt(point string, op string) string {
 	case <-time.After(60 * time.Second):
 		return "HANG:" + point
 	}
+	release()
 	if err != nil {
 		return "err:image:" + strings.ReplaceAll(err.Error(), " ", "_")
 	}
